@@ -218,6 +218,33 @@ theorem C18_set_enumeration_once {s : State κ ν} (h : Reachable hash primes s)
     · rintro ⟨e, he, h2⟩; exact ⟨e, hp.mem_iff.mp he, h2⟩
     · rintro ⟨e, he, h2⟩; exact ⟨e, hp.mem_iff.mpr he, h2⟩
 
+/-- **Re-binding an enumerator.**  `en = set` (`set_enum::operator=(set&)`, `map_enum::operator=(map&)`) on an
+    enumerator in ANY state `e` — bound to this set or to another one (`e` may hold the rest of a collision
+    chain of a different table), abandoned in the middle of a chain, at its end, fresh or default-constructed —
+    starts over: a full sweep of `NextElement()` returns the list `enumAll s` of the NEW set, i.e. every entry of
+    the new set exactly once and nothing else (no leftover of the abandoned chain), then `nullptr`; there is no
+    current element before the first call. -/
+theorem C18_enum_rebind_sweeps_once {s : State κ ν} (h : Reachable hash primes s) (e : Enum κ ν) :
+    drain s (s.count + 1) (enumRebind s e) = enumAll s ∧ (enumAll s).Perm (ents s) ∧
+    ((enumAll s).map (·.key)).Nodup ∧ (enumAll s).length = s.count ∧
+    remaining s (enumRebind s e) = enumAll s ∧ (enumRebind s e).cur = none := by
+  have key := C18_set_enumeration_once h
+  rw [enumRebind_eq_start]
+  exact ⟨key.1, key.2.1, key.2.2.1, key.2.2.2.1, (enumAll_eq_remaining s).symm, rfl⟩
+
+/-- non-vacuity: everything collides; set A holds keys 0..3 in one chain, set B keys 4, 5.  An enumerator of A
+    abandoned after one element still holds three prefetched entries; re-bound to B a sweep gives exactly B's two
+    entries, re-bound to A exactly A's four; a default-constructed one delivers nothing until it is bound. -/
+example :
+    let hs := fun _ : Nat => 5
+    let a := run hs Morfuse.Gen.setPrimes (init : State Nat Nat) ([0, 1, 2, 3].map fun k => Op.put k (k + 10))
+    let b := run hs Morfuse.Gen.setPrimes (init : State Nat Nat) [Op.put 4 1, Op.put 5 2]
+    let e := (enumNext a (enumStart a)).1
+    (e.rest.length, (drain b 9 (enumRebind b e)).map (·.key), ((drain a 9 (enumRebind a e)).map (·.key)).length,
+      (enumNext a (enumDefault : Enum Nat Nat)).2.isNone, ((drain a 9 (enumRebind a enumDefault)).map (·.key)).length) =
+    (3, (enumAll b).map (·.key), 4, true, 4) := by
+  decide
+
 /-- non-vacuity: with everything colliding (constant hash) and the real prime table, a history with
     growth across 1 → 7 → 17, removal of a chain head and a chain middle, shrink and re-insertion -/
 example :
